@@ -324,6 +324,17 @@ def body_copy_replace(px: bool, pxs: bool, ps: bool, mut: bool, op: int, bad: in
         return 7
     if set(b.dict(set_only=True).keys()) != rec:
         return 7
+    if mut and op <= 1:
+        # the copy has a set-field record of its own: assigning on one instance is not recorded on the other
+        first, second = (b, a) if bad == 0 else (a, b)
+        first.s = 'new'
+        if set(first.dict(set_only=True).keys()) != rec | {'s'} or set(second.dict(set_only=True).keys()) != rec:
+            return 9
+        if second.s != ('q' if ps else 's'):
+            return 9
+        c = copy.copy(second) if op == 0 else copy.deepcopy(second)
+        if set(c.dict(set_only=True).keys()) != rec:
+            return 9
     return 0
 
 
